@@ -20,7 +20,7 @@ EXHAUSTIVE = True
 TECHNIQUE = ("complete enumeration of (baths, depth) for the index tables + Hypothesis-generated systems for the "
              "dynamics, against itertools multi-index sets, exact unitary dynamics and the analytic pure-dephasing "
              "solution")
-LEVEL = ("(a) every (number of baths 1..5, depth 0..6) with at most 130 (quick) / 500 (thorough) hierarchy members is "
+LEVEL = ("(Dynamics also with non-zero ground-state energies, and hierarchies obtained through the aggregate interface at several depths in a row.) (a) every (number of baths 1..5, depth 0..6) with at most 130 (quick) / 500 (thorough) hierarchy members is "
          "built through the real KTHierarchy constructor and its tables are compared with the set of all multi-indices "
          "(set equality, no repeats, level by level, level offsets/lengths, mutual inverse and boundary behaviour of "
          "the raising/lowering links, decay factors). (b) generated coupled systems: trace and Hermiticity of every "
